@@ -160,7 +160,8 @@ def c10_run(ctx):
 
 
 CHECK = {
-    "lean_modules": ["P3R.Props.C10", "P3R.Props.C10Full", "P3R.Props.C11Sched", "P3R.Props.C10Lanes", "P3R.Props.C10Gen", "P3R.Witness.C04Gen"],
+    "lean_modules": ["P3R.Props.C10", "P3R.Props.C10Full", "P3R.Props.C11Sched", "P3R.Props.C10Lanes", "P3R.Props.C10Gen", "P3R.Witness.C04Gen",
+                     "P3R.Props.EndToEnd", "P3R.Props.EndToEndReach", "P3R.Witness.EndToEnd"],
     "lean_exes": ["p3r_driver_c11"],
     "theorems": ["P3R.C10.record_row_add", "P3R.C10.record_row_mul", "P3R.C10.record_row_muladd", "P3R.C10.record_row_bool",
                  "P3R.C10.honest_bus_balanced",
@@ -175,10 +176,27 @@ CHECK = {
                  "P3R.C11.schedule_preserves_bus",
                  # lane-packed NPO main trace: the write loop of trace_to_matrix yields the op-major layout, every op present
                  "P3R.NpoLanes.flatOps_getD", "P3R.NpoLanes.cellAt_flatOps", "P3R.NpoLanes.writeLoop_get", "P3R.NpoLanes.writeOps_getD",
-                 "P3R.NpoLanes.numRows_enough", "P3R.NpoLanes.matrix_cell", "P3R.NpoLanes.matrix_has_every_op", "P3R.NpoLanes.prep_cell"],
+                 "P3R.NpoLanes.numRows_enough", "P3R.NpoLanes.matrix_cell", "P3R.NpoLanes.matrix_has_every_op", "P3R.NpoLanes.prep_cell",
+                 # END TO END (Props/EndToEnd): completeness C02 o C09 o C10 — for every ReachablePrim program (+ pubOk, primOk, pubFull), its compiled
+                 # circuit and every assignment satisfying the compiled ops with the inputs supplied: the modelled run succeeds
+                 # (run_total_on_satisfying_inputs), its trace satisfies every row constraint and the bus balances tuple by tuple
+                 # (compiled_bus_balanced_reachable), i.e. it meets exactly the acceptance conditions e2e_soundness starts from; D = 1 and every D;
+                 # bridging lemmas run_pub_in_range (public rows of a successful run are set), compile_ops_wf (compiled ops well formed)
+                 "P3R.E2E.run_pub_in_range", "P3R.E2E.compile_ops_wf", "P3R.E2E.e2e_completeness", "P3R.E2E.e2e_completeness_gen",
+                 "P3R.E2E.e2e_soundness", "P3R.E2E.e2e_soundness_gen", "P3R.E2E.e2e_roundtrip",
+                 "P3R.Witness.EndToEnd.completeness_applies", "P3R.Witness.EndToEnd.e2e_nonvacuous",
+                 "P3R.Witness.EndToEnd.roundtrip_applies", "P3R.Witness.EndToEnd.run_evaluated",
+                 # Props/EndToEndReach: the runner-side guards are consequences of reachability (pubOk / pubFull for every Reachable state: only
+                 # alloc_public_input creates a public node and hands out the next position; primOk for every ReachablePrim state: its only
+                 # non-primitive ops are the decompose_to_bits hints, one input preceding the call node) => completeness from ReachablePrim alone
+                 "P3R.E2ER.Reachable.pubOk", "P3R.E2ER.Reachable.pubFull", "P3R.E2EN.NInv.frame", "P3R.E2EN.NInv.pushNp",
+                 "P3R.E2EN.ReachablePrim.NInv", "P3R.E2EN.ReachablePrim.primOk",
+                 "P3R.E2E.e2e_completeness_reachable", "P3R.E2E.e2e_roundtrip_reachable",
+                 "P3R.Witness.EndToEnd.completeness_reachable_applies", "P3R.Witness.EndToEnd.guards_from_reachability",
+                 "P3R.Witness.EndToEnd.gen_applies"],
     "run": c10_run,
     "trusted_base": ["STARK completeness: a trace satisfying all row constraints with a balanced bus is provable (also exercised for real by every run)"],
-    "assumptions": ["generated programs: BabyBear D=1 circuits of primitive ops and hints (the Lean completeness theorem run_honest_accepted_gen covers every extension degree D, given power-basis independence CoeffIndep and a coefficient map of the extension field); the scheduled/packed ALU layout: bus preservation is proved over the Lean schedule model (C11.schedule_preserves_bus, model tied to the real AluAir by C11's run), the main-trace layout (intermediate accumulators) is tied by C11's scheduled-trace oracle"],
+    "assumptions": ["generated programs: BabyBear D=1 circuits of primitive ops and hints (the Lean completeness theorem run_honest_accepted_gen covers every extension degree D, given power-basis independence CoeffIndep and a coefficient map of the extension field); the scheduled/packed ALU layout: bus preservation is proved over the Lean schedule model (C11.schedule_preserves_bus, model tied to the real AluAir by C11's run), the main-trace layout (intermediate accumulators) is tied by C11's scheduled-trace oracle; END TO END (Props/EndToEnd, e2e_completeness / _gen): from the builder program — hypotheses ReachablePrim b (the decidable runner-side guards pubOk / primOk / pubFull of e2e_completeness are derived from reachability in Props/EndToEndReach: e2e_completeness_reachable), compile b = ok c, genPrep c = some p, and the hypotheses of C02.run_total_on_satisfying_inputs on the assignment (every compiled op holds, RunnerWrites incl. a non-zero a operand of every Mul row, hints agree, the table holds exactly the inputs); hcreated / hwf / hchain / hpub of run_honest_accepted are derived"],
 }
 
 MANIFEST_ENTRY = {
